@@ -20,7 +20,8 @@ EXPLANATION = (
     "its marker cursor past every cone on every path; (R7) select_rows gives every column - empty or not - its start pointer "
     "and every kept entry its renumbered row, value and count."
     " R2 also requires that the drop test compares the entry b[idx] itself (not |b|), with comparisons normalised to one orientation."
-    " R2 also: the row cursor into b starts at 0 and only advances - by one per examined row, by nvars over a skipped cone.")
+    " R2 also: the row cursor into b starts at 0 and only advances - by one per examined row, by nvars over a skipped cone."
+    " R7 also: every return of select_rows is the matrix allocated for the reduced size (never a clone of the input).")
 ASSUMPTIONS = ['rustc MIR construction and trait resolution are correct',
                'CscMatrix::select_rows / select keep the order of the retained rows (C16 territory)']
 
@@ -419,6 +420,21 @@ def row_selection(rep, F, tag):
                     if e[0] == 'assign' and e[1] == 'ptrred' and isinstance(e[4], dict) and canon(f.sym_rvalue(e[4]['rv'])).replace('withoverflow', '').startswith('add(var:ptrred, 1_usize)'):
                         kept['count'] = True
         R.check(all(kept.values()), 'kept-entry' + tag, 'select_rows: a kept entry must store its renumbered row, its value and advance the count (%s)' % kept, f.loc())
+
+        # every return hands back the matrix that was allocated for the reduced size and filled with renumbered rows - never (a copy
+        # of) the input with only its row count changed
+        nret = 0
+        for val, ret, ev, tr in Walker(f, cut_loops=True, local_stores=True).leaves():
+            if ret[0] != 's':
+                continue
+            nret += 1
+            src = [canon(f.sym_rvalue(e[4]['rv'])) for e in ev if e[0] == 'assign' and isinstance(e[4], dict) and str(ret[1]) == 'var:' + str(e[1])]
+            calls = [str(e[2]) for e in ev if e[0] == 'call' and e[1] in ('spalloc', 'clone')]
+            ok = any(c.startswith('spalloc(') for c in calls) and not any(c == 'clone(self)' or c.startswith('clone(self)') or c == 'self' for c in calls)
+            R.check(ok and 'self' != str(ret[1]), 'returns-rebuilt' + tag,
+                    'select_rows returns %s built from %s on the path %s: the reduced matrix must be allocated for the kept rows and filled with renumbered row indices '
+                    '(a copy of the input keeps the old indices although b and the cones are compacted)' % (str(ret[1])[:40], calls[:3], {k[:40]: v for k, v in val.items()}), f.loc())
+        R.check(nret >= 1, 'return-paths' + tag, 'no return path of select_rows analysed', f.loc())
 
     R.guard(body)
 
